@@ -763,3 +763,91 @@ Definition normalise (to_f32 : N -> N) (v : value) : value :=
   | VTime us _ => VTime us 0
   | _ => v
   end.
+
+(* ------------------------------------------------------------------------------------------ *)
+(* vocabulary of the property statements *)
+
+(* what a typed flow record can hold in a field of type t (as _packdict hands it over) *)
+Definition well_typed (t : string) (v : value) : bool :=
+  if String.eqb t "digest" then match v with VDigest => true | _ => false end
+  else match v with
+  | VNone => true
+  | VBool _ => String.eqb t "boolean"
+  | VInt z => mem t ["varint"; "filesize"; "unix_file_mode"]
+              || (String.eqb t "uint16" && (0 <=? z)%Z && (z <=? 65535)%Z)
+              || (String.eqb t "uint32" && (0 <=? z)%Z && (z <=? 4294967295)%Z)
+  | VFloat _ => String.eqb t "float"
+  | VText _ => mem t ["string"; "wstring"; "uri"]
+  | VBytes _ => String.eqb t "bytes"
+  | VTime us off => String.eqb t "datetime" && in_py_range (us + off)          (* wall clock within year 1..9999 *)
+                    && (-86400000000 <? off)%Z && (off <? 86400000000)%Z        (* |utcoffset| < 1 day *)
+  | VDigest => false
+  end.
+
+(* "integer outside the schema's range": the range of the Avro type AVRO_TYPE_MAP gives the field *)
+Definition int_range_of (a : string) (z : Z) : bool :=
+  if String.eqb a "int" then int32_ok z else if String.eqb a "long" then int64_ok z else true.
+
+(* the Avro mapping can represent the value: integers within the mapped type's range, text that has a UTF-8
+   encoding, not the 3-tuple of a digest *)
+Definition representable (cfg : config) (t : string) (v : value) : bool :=
+  match v with
+  | VInt z => match lookup t (cfg_avro_map cfg) with Some a => int_range_of a z | None => false end
+  | VText c => negb (has_surrogate c)
+  | VDigest => false
+  | _ => true
+  end.
+
+Definition time_ok (v : value) : bool := match v with VTime us _ => in_py_range us | _ => true end.
+
+Fixpoint all2 {A B} (p : A -> B -> bool) (l : list A) (m : list B) : bool :=
+  match l, m with
+  | [], [] => true
+  | a :: l', b :: m' => p a b && all2 p l' m'
+  | _, _ => false
+  end.
+
+Definition well_typed_rec (cfg : config) (d : descriptor) (vs : list value) : bool :=
+  all2 (fun f v => well_typed (fst f) v) (all_fields cfg d) vs.
+Definition representable_rec (cfg : config) (d : descriptor) (vs : list value) : bool :=
+  all2 (fun f v => representable cfg (fst f) v) (all_fields cfg d) vs.
+Definition times_ok (vs : list value) : bool := forallb time_ok vs.
+
+Definition mappable (cfg : config) (d : descriptor) : bool :=
+  match descriptor_to_schema cfg d with Some _ => true | None => false end.
+
+(* a session on the file of descriptor d in which no write is accepted behind a value-refused write of the same
+   block (a flush in between starts a new block); [dirty]: such a refusal happened since the last flush *)
+Fixpoint safe_session (cfg : config) (d : descriptor) (dirty : bool) (ops : list op) : bool :=
+  match ops with
+  | [] => true
+  | OFlush :: rest => safe_session cfg d false rest
+  | OWrite r :: rest =>
+      if desc_eqb d (r_desc r)
+      then (if representable_rec cfg d (r_vals r) then negb dirty && safe_session cfg d false rest
+            else safe_session cfg d true rest)
+      else safe_session cfg d dirty rest
+  end.
+
+(* the records of d the mapping can represent, in order, and the decision the property expects per operation *)
+Fixpoint accepted (cfg : config) (d : descriptor) (ops : list op) : list record :=
+  match ops with
+  | [] => []
+  | OFlush :: rest => accepted cfg d rest
+  | OWrite r :: rest => if desc_eqb d (r_desc r) && representable_rec cfg d (r_vals r)
+                        then r :: accepted cfg d rest else accepted cfg d rest
+  end.
+Definition is_accepted (o : outcome) : bool := match o with Accepted => true | Refused _ => false end.
+Definition expected_decision (cfg : config) (d : descriptor) (o : op) : bool :=
+  match o with
+  | OFlush => true
+  | OWrite r => desc_eqb d (r_desc r) && representable_rec cfg d (r_vals r)
+  end.
+
+(* names: no JSON escaping needed; a field-less descriptor's name must survive namespace.name -> path *)
+Definition plain_name (s : string) : bool := negb (has_char dquote s).
+Definition name_ok (n : string) : bool :=
+  negb (has_char dot n) && negb (starts_with "/" n) && negb (ends_with "/" n).
+Definition wf_descriptor (d : descriptor) : bool :=
+  plain_name (d_name d) && forallb (fun f => plain_name (fst f) && plain_name (snd f)) (d_fields d)
+  && match d_fields d with [] => name_ok (d_name d) | _ => true end.
